@@ -48,13 +48,13 @@ example : (serve toyNet witCfg witConn []).fwd =
 example : (serve toyNet witCfg witConn [(b!"Connection", b!"X-Forwarded-For")]).fwd =
     some ⟨some (some [b!"1.2.3.4"]), some (some [b!"http"]), some (some [b!"a"])⟩ := by decide
 
-/-! ### PROXY protocol wrapper: the deny list does not apply to zoned (link-local) peers
+/-! ### PROXY protocol wrapper: what the code did before the zone was dropped
 
-listenerwrapper.go parses the peer's host WITH its zone (`fe80::1%eth0` — the form every link-local
-connection has) and `netip.Prefix.Contains` is false for every zoned address, so such a peer is never
-"in" a `deny` (or `allow`) range: with `fallback_policy USE` and `deny fe80::/10` the PROXY header of
-`[fe80::1%eth0]:1` is believed, while that of `[fe80::1]:1` is rejected.  Reproduced on the real code;
-the protocol line is exported in `Driver.witnessLines`. -/
+listenerwrapper.go used to test the peer's address WITH its zone (`fe80::1%eth0` — the form every
+link-local connection has) against `allow` / `deny`, and `netip.Prefix.Contains` is false for every
+zoned address: with `fallback_policy USE` and `deny fe80::/10` the PROXY header of `[fe80::1%eth0]:1`
+was believed while that of `[fe80::1]:1` was rejected.  Repaired (`ip = ip.WithZone("")`); the old
+behaviour is kept here as a non-vacuity fact, its protocol line in corpus/C10/fixed-findings.txt. -/
 
 /-- a toy netip with zones: `fe80::1` and `fe80::1%eth0` both parse (to different values) and, as in
     net/netip, no prefix contains a zoned address -/
@@ -66,17 +66,22 @@ def toyNetZ : Net Bytes Bytes where
 /-- `deny fe80::/10`, `fallback_policy USE` -/
 def witPP : PPCfg Bytes := ⟨[], [b!"fe80"], .use⟩
 
-/-- FULL statement (fails): a peer whose address — zone aside — lies in a `deny` range never gets its
-    PROXY header believed. -/
-theorem denied_peer_never_believed_full_fails :
-    ∃ (cfg : PPCfg Bytes) (peer host port claim : Bytes) (ip : Bytes) (a : Accepted),
-      splitHostPort peer = some (host, port) ∧ toyNetZ.parseAddr (cutZone host) = some ip ∧
-      cfg.deny.any (fun r => toyNetZ.contains r ip) = true ∧
-      wrapAccept toyNetZ cfg b!"tcp" peer (some claim) = some a ∧ a.remote ≠ peer :=
-  ⟨witPP, b!"[fe80::1%eth0]:1", b!"fe80::1%eth0", b!"1", b!"6.6.6.6:7777", b!"fe80::1", ⟨b!"6.6.6.6:7777", true⟩,
-   by decide, by decide, by decide, by decide, by decide⟩
+/-- the policy closure as it was: the zoned address itself goes into the containment tests -/
+def connPolicyOld (N : Net Bytes Bytes) (cfg : PPCfg Bytes) (network peer : Bytes) : PolicyResult :=
+  if unixOrFd network then .policy .use
+  else
+    match splitHostPort peer with
+    | none => .refuse
+    | some hp =>
+      match N.parseAddr hp.1 with
+      | none => .refuse
+      | some ip => .policy (rangePolicy N cfg ip)
 
--- the same peer without the zone IS rejected
-example : wrapAccept toyNetZ witPP b!"tcp" b!"[fe80::1]:1" (some b!"6.6.6.6:7777") = some ⟨b!"[fe80::1]:1", false⟩ := by decide
+/-- the old code believed the PROXY header of a denied link-local peer; the code as it is does not -/
+theorem denied_peer_believed_by_old_code :
+    connPolicyOld toyNetZ witPP b!"tcp" b!"[fe80::1%eth0]:1" = .policy .use ∧
+    connPolicy toyNetZ witPP b!"tcp" b!"[fe80::1%eth0]:1" = .policy .reject ∧
+    wrapAccept toyNetZ witPP b!"tcp" b!"[fe80::1%eth0]:1" (some b!"6.6.6.6:7777") = some ⟨b!"[fe80::1%eth0]:1", false⟩ := by
+  decide
 
 end CaddyModel.C10
